@@ -15,7 +15,7 @@ LEVEL_TEXT = (
     'because the crash discards them and nothing re-creates them. Reachability of every crash point '
     'is C01 + C04 and is not computed here.')
 
-FLOORS = {'C09-R1': 3, 'C09-R2': 4, 'C09-R3': 3, 'C09-R4': 4, 'C09-R5': 2, 'C10-R1': 8}
+FLOORS = {'C09-R1': 3, 'C09-R2': 4, 'C09-R3': 3, 'C09-R4': 4, 'C09-R5': 2, 'C10-R1': 8, 'C06-R3': 10}
 
 TRUNCATING = ('Iterator::take', 'Iterator::skip', 'Iterator::step_by', 'Iterator::take_while',
               'Iterator::skip_while', 'Iterator::nth', 'Iterator::last', 'Iterator::next', 'Iterator::find',
@@ -343,6 +343,13 @@ def run(ctx):
         r3_silent(ctx, F)
     with ctx.rule('C09-R4', 'actions'):
         r4_budget(ctx, F)
+    # "all other actors behave as before": what a live actor sends goes out (network, history hook) whether or not
+    # its destination has crashed
+    import c06
+    ctx.doc('C06-R3', 'process_commands: every Command::Send consults record_msg_out and enters the network on every '
+                      'path of the Send arm')
+    with ctx.rule('C06-R3', 'process_commands'):
+        c06.r3_commands(ctx, F)
     # crash flags must travel with their actor when a state is canonicalised (symmetry reduction)
     import c10
     ctx.doc('C10-R1', 'representative(): per-actor vectors (incl. `crashed`) are permuted with reindex under one plan')
